@@ -48,10 +48,14 @@ type rcServer struct {
 	autoAnswer  map[uint32]bool
 	done        chan struct{}
 	bad         string
+	// history: when each request arrived and when it was answered (zero = not yet)
+	recvAt   map[uint32]time.Time
+	answered map[uint32]time.Time
 }
 
 func startRCServer(pair *memconn.Pair) *rcServer {
-	s := &rcServer{pair: pair, done: make(chan struct{}), autoAnswer: map[uint32]bool{}}
+	s := &rcServer{pair: pair, done: make(chan struct{}), autoAnswer: map[uint32]bool{},
+		recvAt: map[uint32]time.Time{}, answered: map[uint32]time.Time{}}
 	go func() {
 		defer close(s.done)
 		if _, err := wire.ReadHello(pair.Server); err != nil {
@@ -66,6 +70,7 @@ func startRCServer(pair *memconn.Pair) *rcServer {
 			s.mu.Lock()
 			s.received++
 			s.lastRecv = time.Now()
+			s.recvAt[req.Header.GetCallId()] = s.lastRecv
 			s.outstanding = append(s.outstanding, req)
 			s.mu.Unlock()
 		}
@@ -84,6 +89,7 @@ func (s *rcServer) answer(i int) bool {
 	i = ((i % len(s.outstanding)) + len(s.outstanding)) % len(s.outstanding)
 	req := s.outstanding[i]
 	s.outstanding = append(s.outstanding[:i], s.outstanding[i+1:]...)
+	s.answered[req.Header.GetCallId()] = time.Now()
 	s.mu.Unlock()
 	s.pair.Server.Write(rcOKResponse(req))
 	return true
@@ -146,6 +152,9 @@ func c18Run(c c18Case) Outcome {
 	if res.Panic != "" {
 		return viol("panic@"+topFrame(res.Stack), "%s\n%s", res.Panic, res.Stack)
 	}
+	if o.Sig != "" {
+		return o
+	}
 	if res.Deadlock != "" {
 		return viol("deadlock", "bubble deadlocked: %s\n%s", res.Deadlock, bubbleStacks(res.Stack))
 	}
@@ -155,7 +164,8 @@ func c18Run(c c18Case) Outcome {
 func c18RunInBubble(c c18Case) (out Outcome) {
 	readTimeout := time.Duration(c.ReadTimeoutMS) * time.Millisecond
 	var srv *rcServer
-	var gateCall hrpc.Call
+	var gateCall *c18Call
+	var mu sync.Mutex
 	opts := memconn.Options{}
 	opts.AfterWrite = func(data []byte) {
 		call := gateCall
@@ -168,7 +178,12 @@ func c18RunInBubble(c c18Case) (out Outcome) {
 		if err != nil {
 			return
 		}
-		for i := 0; i < 20000 && len(call.ResultChan()) == 0; i++ {
+		delivered := func() bool {
+			mu.Lock()
+			defer mu.Unlock()
+			return call.res != nil
+		}
+		for i := 0; i < 20000 && !delivered(); i++ {
 			srv.answerID(req.Header.GetCallId())
 			runtime.Gosched()
 		}
@@ -178,12 +193,20 @@ func c18RunInBubble(c c18Case) (out Outcome) {
 		return viol("harness", "dial: %v", err)
 	}
 	srv = startRCServer(env.pair)
+	var calls []*c18Call
 	defer func() {
 		env.rc.Close()
 		synctest.Wait()
+		// release the waiters of calls that never get a result (cancelled ones)
+		for _, cc := range calls {
+			cc.cancel()
+			select {
+			case cc.call.ResultChan() <- hrpc.RPCResult{}:
+			default:
+			}
+		}
+		synctest.Wait()
 	}()
-	var calls []*c18Call
-	var mu sync.Mutex
 	nextMarker := 0
 	send := func(batched, cancelIt, gate bool) *c18Call {
 		nextMarker++
@@ -204,7 +227,7 @@ func c18RunInBubble(c c18Case) (out Outcome) {
 			mu.Unlock()
 		}()
 		if gate && !batched {
-			gateCall = g
+			gateCall = cc
 		}
 		cc.sentAt = time.Now()
 		env.rc.QueueRPC(g)
@@ -214,6 +237,7 @@ func c18RunInBubble(c c18Case) (out Outcome) {
 		return cc
 	}
 	dead := false
+	t0 := time.Now()
 	var lastSend time.Time
 	idleLong := false
 	zeroCrossings := 0
@@ -253,37 +277,62 @@ func c18RunInBubble(c c18Case) (out Outcome) {
 		closed := env.pair.ClientClosed()
 		dl := env.pair.ReadDeadline()
 		now := time.Now()
+		if closed {
+			// When did the client close, and was that the read deadline of the requests sent
+			// strictly before that instant? (A request sent in the very instant the deadline
+			// fires may or may not re-arm it first: both outcomes are legitimate.)
+			var closeAt time.Time
+			for _, op := range env.pair.Ops() {
+				if op.Kind == "close" {
+					closeAt = op.At
+					break
+				}
+			}
+			var last time.Time
+			outstandingAtClose := false
+			srv.mu.Lock()
+			for id, at := range srv.recvAt {
+				if !at.Before(closeAt) {
+					continue
+				}
+				if at.After(last) {
+					last = at
+				}
+				if ans, ok := srv.answered[id]; !ok || !ans.Before(closeAt) {
+					outstandingAtClose = true
+				}
+			}
+			srv.mu.Unlock()
+			if !outstandingAtClose {
+				return viol("idle-connection-closed", "step %d (%s): the client closed the connection at %v although every request sent before had been answered (read timeout %v)", step, a.Kind, closeAt.Sub(t0), readTimeout)
+			}
+			if closeAt.Sub(last) != readTimeout {
+				return viol("closed-with-outstanding-early", "step %d: connection closed by the client %v after the last request sent before that instant; the read timeout is %v", step, closeAt.Sub(last), readTimeout)
+			}
+			silentWithOutstanding = true
+			// every unanswered call must have failed with a ServerError at the deadline instant
+			mu.Lock()
+			for _, cc := range calls {
+				if cc.res == nil || cc.res.Error == nil {
+					continue
+				}
+				if _, ok := cc.res.Error.(region.ServerError); !ok {
+					mu.Unlock()
+					return viol("timeout-wrong-error", "step %d: call failed with %T %v, expected region.ServerError", step, cc.res.Error, cc.res.Error)
+				}
+				if cc.resAt.Before(closeAt) {
+					mu.Unlock()
+					return viol("timeout-wrong-time", "step %d: a call failed %v before the connection timed out", step, closeAt.Sub(cc.resAt))
+				}
+			}
+			mu.Unlock()
+			dead = true
+			continue
+		}
 		if n > 0 {
 			expect := lastSend.Add(readTimeout)
 			if !now.Before(expect) {
-				// the server has been silent for the whole read timeout of the last request
-				silentWithOutstanding = true
-				if !closed {
-					return viol("silent-server-not-detected", "step %d: %d requests outstanding, last sent %v ago (timeout %v) but the connection is still open", step, n, now.Sub(lastSend), readTimeout)
-				}
-				// every unanswered call must have failed with a ServerError at the deadline instant
-				mu.Lock()
-				for _, cc := range calls {
-					if cc.res == nil {
-						continue
-					}
-					if cc.res.Error != nil {
-						if _, ok := cc.res.Error.(region.ServerError); !ok {
-							mu.Unlock()
-							return viol("timeout-wrong-error", "step %d: call failed with %T %v, expected region.ServerError", step, cc.res.Error, cc.res.Error)
-						}
-						if !cc.resAt.Equal(expect) {
-							mu.Unlock()
-							return viol("timeout-wrong-time", "step %d: call failed %v after the last send, read timeout is %v", step, cc.resAt.Sub(lastSend), readTimeout)
-						}
-					}
-				}
-				mu.Unlock()
-				dead = true
-				continue
-			}
-			if closed {
-				return viol("closed-with-outstanding-early", "step %d: connection closed by the client %v after the last send although the read timeout is %v", step, now.Sub(lastSend), readTimeout)
+				return viol("silent-server-not-detected", "step %d: %d requests outstanding, last sent %v ago (timeout %v) but the connection is still open", step, n, now.Sub(lastSend), readTimeout)
 			}
 			if dl.IsZero() {
 				return viol("deadline-not-armed", "step %d: %d requests outstanding but no read deadline is armed", step, n)
@@ -292,9 +341,6 @@ func c18RunInBubble(c c18Case) (out Outcome) {
 				return viol("deadline-wrong", "step %d: read deadline is %v after the last send, configured timeout %v", step, dl.Sub(lastSend), readTimeout)
 			}
 		} else {
-			if closed {
-				return viol("idle-connection-closed", "step %d (%s): nothing outstanding, yet the client closed the connection (idle for %v since the last request; read timeout %v)", step, a.Kind, now.Sub(lastSend), readTimeout)
-			}
 			if !dl.IsZero() {
 				return viol("deadline-armed-while-idle", "step %d (%s): nothing outstanding but a read deadline is armed (%v from now): the idle connection will be torn down", step, a.Kind, dl.Sub(now))
 			}
